@@ -18,13 +18,17 @@ def setup(src):
 def invocations(a, img, aux):
     T = lambda p: os.path.join(a, p)
     dbg = lambda c: [T("debugfs/debugfs"), "-R", c, img]
+    # rdump copies a file byte by byte up to its i_size (no sparse output): a damaged size field of 2^40 is not a hang but
+    # a very long copy, also on a healthy filesystem with such a file - every output file is capped at 64 MiB instead
+    # (the write fails with EFBIG, debugfs reports it and goes on)
+    capped = lambda cmd: ["/bin/bash", "-c", 'trap "" XFSZ; ulimit -f 65536; exec "$@"', "sh"] + cmd
     return [
         ("e2fsck -fn", [T("e2fsck/e2fsck"), "-fn", img], False), ("e2fsck -fy", [T("e2fsck/e2fsck"), "-fy", img], True),
         ("e2fsck -p", [T("e2fsck/e2fsck"), "-p", img], True), ("e2fsck -fyD", [T("e2fsck/e2fsck"), "-fyD", img], True),
         ("debugfs ls -l", dbg("ls -l /d1"), False), ("debugfs stat", dbg("stat /d1/plain"), False), ("debugfs htree", dbg("htree_dump /big"), False),
         ("debugfs logdump", dbg("logdump -a"), False), ("debugfs ex", dbg("ex /d1/frag"), False), ("debugfs cat", dbg("cat /d1/plain"), False),
         ("debugfs ea_list", dbg("ea_list /d1/plain"), False), ("debugfs icheck", dbg("icheck 100 200 300"), False), ("debugfs ncheck", dbg("ncheck 12 13 14 15"), False),
-        ("debugfs rdump", dbg("rdump / %s" % aux), False), ("debugfs bmap", dbg("bmap /d1/plain 3"), False), ("debugfs lsdel", dbg("lsdel"), False),
+        ("debugfs rdump", capped(dbg("rdump / %s" % aux)), False), ("debugfs bmap", dbg("bmap /d1/plain 3"), False), ("debugfs lsdel", dbg("lsdel"), False),
         ("dumpe2fs", [T("misc/dumpe2fs"), img], False), ("dumpe2fs -x", [T("misc/dumpe2fs"), "-x", img], False), ("tune2fs -l", [T("misc/tune2fs"), "-l", img], False),
         ("resize2fs -P", [T("resize/resize2fs"), "-P", img], False), ("e2image -r", [T("misc/e2image"), "-r", img, aux + ".raw"], False),
         ("e2image -Q", [T("misc/e2image"), "-Q", img, aux + ".qcow"], False), ("e2freefrag", [T("misc/e2freefrag"), img], False),
@@ -357,13 +361,19 @@ def robust_corr(src, mexe, seed, tier):
                         except subprocess.TimeoutExpired:
                             rc = -9
                     n_restart = 0
+                    reached_pass1 = False
                     with open(log, "rb") as lf:
                         for line in lf:
                             n_restart += line.startswith(b"Restarting e2fsck from the beginning")
+                            reached_pass1 = reached_pass1 or line.startswith(b"Pass 1")
                             if n_restart > 50:
                                 break
                     os.unlink(log)
                     os.unlink(img)
+                    if not reached_pass1 and rc != -9:
+                        # the protocol is about runs that get as far as pass 1; with the journal inode in a group whose table is
+                        # missing e2fsck gives up before ("Cannot proceed with file system check")
+                        continue
                     mo = ask("RS %d %d" % (ro, k))
                     rows += 1
                     if rc == -9 or mo != str(n_restart):
